@@ -3,6 +3,7 @@ import Driver.Size
 import Driver.Peers
 import Driver.Tower
 import Driver.Router
+import Driver.Codegen
 open Anemo Anemo.Driver
 
 /-- state carried across lines by the stateful models -/
@@ -25,6 +26,7 @@ def step (st : DState) (line : String) : DState × String :=
     else if cmd.startsWith "auth." || cmd.startsWith "inflight." || cmd.startsWith "gcra." then
       let (ts, o) := towerOp st.tower cmd args
       ({ st with tower := ts }, o)
+    else if cmd.startsWith "codegen." then (st, codegenOp cmd args)
     else if cmd.startsWith "router." then
       let (rs, o) := routerOp st.router cmd args
       ({ st with router := rs }, o)
